@@ -5363,6 +5363,8 @@ impl<'a, 'graph> Builder<'a, 'graph> {
     *self.graph = ModuleGraph::new(self.graph.graph_kind);
     self.state = PendingState::default();
     self.fill_pass_mode = FillPassMode::CacheBusting;
+    // the first pass may already have entered its dynamic phase
+    self.in_dynamic_branch = self.was_dynamic_root;
 
     // boxed due to async recursion
     async move { self.build(roots, imports).await }.boxed_local()
